@@ -25,6 +25,18 @@ CHECKS = {
     ),
 }
 
+CHECKS["C05"] = (
+    "Hypothesis tree specs x enumerated/drawn prune-filter predicate subsets vs recursive reference traversal",
+    "Seeded Hypothesis search over trees of the v2 universe (all child-field shapes, shared objects, falsy "
+    "children, tuples wider than 10); for small trees every (prune, filter) pair of position subsets is "
+    "enumerated, for larger ones a fixed+drawn sample; dfs / bottom-up dfs / bfs / gather / children are "
+    "compared as sequences (order, multiplicity, node/parent/field/index identity) with an independent "
+    "recursive reference. Bounded exploration.",
+    "Trusts Hypothesis, the reference traversal over the spec graph, dataclasses.fields order; the node "
+    "universe of pbt/models_v2.py samples 'any node model'.",
+    "DESIGN.md section 3 / C05",
+)
+
 NOT_YET = "check not built yet in this snapshot (see DESIGN.md section 9 build order); nothing is claimed"
 
 
